@@ -68,6 +68,30 @@ func (e *env) runType(ti *tinfo) {
 		bops = append(append([]operand{}, ops[:6]...), ops[6:nb]...)
 	}
 	hx := func(v ofield.El) string { return f.String(v) }
+	// the constant setters, on receivers that already hold a value (every coordinate is theirs to write)
+	for _, sn := range []string{"SetOne", "SetZero"} {
+		m, ok := pT.MethodByName(sn)
+		if !ok || m.Type.NumIn() != 1 {
+			continue
+		}
+		want := f.Zero()
+		if sn == "SetOne" {
+			want = f.One()
+		}
+		for k := 0; k < 4; k++ {
+			recv := reflect.New(ti.T)
+			held := "a zero-valued receiver"
+			if k > 0 {
+				recv = e.junk(ti)
+				held = "a receiver holding " + hx(e.rd(recv))
+			}
+			desc := func() string { return fmt.Sprintf("%s.%s() on %s", ti.Name, sn, held) }
+			if _, ok := e.call(ti, recv, sn, desc); ok {
+				e.cmp(ti, sn, "used-receiver", recv, want, desc)
+			}
+		}
+		c.Class(e.key(ti, sn, "used-receiver"))
+	}
 	for i := 0; i < pT.NumMethod(); i++ {
 		m := pT.Method(i)
 		name := m.Name
